@@ -37,7 +37,7 @@ def floors(ctx):
     q = ctx.tier == "quick"
     f = {"evaluations": 20000 if q else 200000, "histories": 200 if q else 2000,
          "hits_after_mutation": 2000 if q else 20000, "toggle_off_mutate_on_episodes": 20,
-         "fresh_interpreter_continuations": 3 if q else 40, "same_process_reloads": 20}
+         "fresh_interpreter_continuations": 10 if q else 40, "same_process_reloads": 20}
     for k in ("setv1", "setv2", "v_add_link", "v_rm_link", "l_add_vertex", "l_unlink_from", "link", "unlink", "mke",
               "mkv", "adjdict", "adjmatrix"):
         f["hit_after:" + k] = 1
@@ -396,11 +396,27 @@ def run(ctx):
         ctx.count("prelude_histories")
         if stats.get("hits_after_mutation", 0) > before:
             ctx.nontrivial(ops)
-    # one scripted fresh-interpreter continuation per shard, so the floor never depends on the seed
-    hop_script = next(iter(prelude()))
-    nq = 4 * 10 + 3
-    hop_ops = hop_script[:-nq] + [["hop"]] + hop_script[-nq:]
-    judge(ctx, hop_ops, stats)
+    # scripted fresh-interpreter continuations (seed-independent): warm the caches, pickle, and in the fresh
+    # interpreter mutate BEFORE the first cached query of the affected vertices, then query everything
+    base = [["cache", True], ["mkv", "V0", "Vertex", [], []], ["mkv", "V1", "VSub", [], []], ["mkv", "V2", "Vertex", [], []],
+            ["mkv", "V3", "Vertex", [], []], ["mke", "E0", "DirectedEdge", "V0", "V1"], ["mke", "E1", "UnDirectedEdge", "V1", "V2"],
+            ["mke", "E2", "OtherLink", "V2", "V0"]]
+    qs = [["nb", v, d, u, f] for v in ("V0", "V1", "V2", "V3") for (d, u, f) in QUERY_KEYS[:10]]
+    qs += [["trav", "bft", None, "V0", "ANY", "NEIGHBOR", "none", "none"], ["fl", "V1", "V0", False, "NEIGHBOR", "none"]]
+    hop_muts = [["setv2", "E0", "V3"], ["setv1", "E1", "V3"], ["v_rm_link", "V1", "E0"], ["l_unlink_from", "E1", "V2"],
+                ["unlink", "V0", "V1", True], ["link", "directed", "V0", "DirectedEdge", "V3", False, "E7"],
+                ["mke", "E7", "UnDirectedEdge", "V3", "V0"], ["l_add_vertex", "E0", "V3"],
+                ["adjdict", "U7", "DirectedEdge", [["V0", ["V3"]], ["V3", ["V1"]]]]]
+    for n, m in enumerate(hop_muts):
+        if n % ctx.nshards != ctx.shard % len(hop_muts) and ctx.nshards > 1:
+            continue
+        for flag_at_load in (True, False):
+            ops = base + qs + [["cache", flag_at_load], ["hop"], m, ["cache", True]] + qs
+            before = stats.get("hits_after_mutation", 0)
+            judge(ctx, ops, stats)
+            ctx.count("scripted_hop_histories")
+            if stats.get("hits_after_mutation", 0) > before:
+                ctx.nontrivial(ops)
     nhist = 260 if quick else 900
     nhops = 6 if quick else 12
     for i in range(nhist):
